@@ -45,6 +45,11 @@ Proof.
   - apply eqjunk_refines.
   - apply ormap_refines.
   - apply rormap_refines.
+  - apply viewkeys_refines.
+  - apply viewvalues_refines.
+  - apply viewitems_refines.
+  - apply dictof_refines.
+  - apply truth_refines.
   - apply updatebad_refines.
   - apply updateextendbad_refines.
   - apply addlistbad_refines.
@@ -120,7 +125,8 @@ Definition is_read (o : op) : bool :=
   match o with
   | Items _ | Keys _ | Values _ | Len | Iter | Reversed | Get _ _ | GetList _ _ | GetItem _
   | Contains _ | ToDict _ | Counts | Inverted | Sorted _ _ | SortedValues _ _ | Repr
-  | EqOther _ | EqSelf _ | EqPairs _ _ | EqMap _ _ | EqJunk _ | OrMap _ | ROrMap _ => true
+  | EqOther _ | EqSelf _ | EqPairs _ _ | EqMap _ _ | EqJunk _ | OrMap _ | ROrMap _
+  | ViewKeys | ViewValues | ViewItems | DictOf | Truth => true
   | _ => false
   end.
 
